@@ -8,7 +8,7 @@ CONSTANTS
   OffsMod = 65536
   Kind = "uriparams"
   Atoms <- AtomsNames
-  MaxLen = 6
+  MaxLen = 7
   Cfgs <- CfgsOf
   Starts = {0, 3}
   FlagSet = {72}
